@@ -90,13 +90,16 @@ def luks(version=1, payload_offset=4096, magic=b'LUKS\xba\xbe', total=4096 * 512
 
 def vhdx(size=3 * K * K * K, meta_off=0x100000, nreg=2, midx=1, nmeta=5, vidx=2, item_off=None, item_len=8,
          ident=b'vhdxfile', regi=0x69676572, reg_count=None, meta_sig=b'metadata', meta_count=None,
-         tail=100, other_off=0x200000, vds_guid=GUID_VDS, meta_guid=GUID_META, **kw):
+         tail=100, other_off=0x200000, vds_guid=GUID_VDS, meta_guid=GUID_META, total=None, fill=0, **kw):
+    """`total` fixes the stream length (hostile pointers / lengths would otherwise size the buffer);
+    `fill` is the background byte."""
     H = 192 * K
     es = 32 + nmeta * 32
     if item_off is None:
         item_off = 0x10000
-    total = max(meta_off + item_off + max(item_len, 8) + tail, H + 64 * K)
-    buf = bytearray(total)
+    if total is None:
+        total = max(meta_off + item_off + max(item_len, 8) + tail, H + 64 * K)
+    buf = bytearray([fill]) * total
 
     def put(o, b):
         if o < len(buf):
@@ -105,7 +108,7 @@ def vhdx(size=3 * K * K * K, meta_off=0x100000, nreg=2, midx=1, nmeta=5, vidx=2,
     put(0, ident + 'oslo'.encode('utf-16-le'))
     put(H, struct.pack('<IIII', regi, 0, nreg if reg_count is None else reg_count, 0))
     for i in range(nreg):
-        g = meta_guid if i == midx else bytes([0x10 + i]) * 16
+        g = meta_guid if i == midx else bytes([0x10 + i % 200]) * 16
         put(H + 16 + 32 * i, g + struct.pack('<QII', meta_off if i == midx else other_off, 0x100000, 1))
     put(meta_off, struct.pack('<8sHH', meta_sig, 0, nmeta if meta_count is None else meta_count))
     for i in range(nmeta):
